@@ -1,6 +1,6 @@
 """Correspondence family `docemit`: docstring_utils.emit_param_str, emit.docstring, emitter_utils.to_docstring
-vs coq/model/DocEmit.v.  Compared: the text byte for byte AND the post-call param / IR (the functions mutate their
-arguments).  The wrapping width is read by doctrans at import, so cases with an explicit `width` run in a child
+vs coq/model/DocEmit.v.  Compared: the text byte for byte AND the post-call param / IR (emit_param_str and
+emit.docstring mutate their arguments; to_docstring works on copies and must leave the IR as it was).  The wrapping width is read by doctrans at import, so cases with an explicit `width` run in a child
 process started with DOCTRANS_LINE_LENGTH=<width>; cases with width None run in-process at the module default."""
 import copy
 import json
@@ -82,8 +82,11 @@ def run_direct(case):
     m = impl()
     fn, a = case["fn"], copy.deepcopy(case["args"])
     if fn == "fill_at":
-        import textwrap
-        return dumps(outcome(lambda: textwrap.fill(a["s"], width=a["w"]), lambda s: s))
+        # doctrans.pure_utils.fill is functools.partial(textwrap.fill, width=line_length, <options>): call the same
+        # function with the same options as the module has them NOW, at this case's width
+        pf = m.pure_utils.fill
+        kw = dict(pf.keywords, width=a["w"])
+        return dumps(outcome(lambda: pf.func(a["s"], *pf.args, **kw), lambda s: s))
     if fn == "emit_param_str":
         p = a["p"]
 
@@ -265,20 +268,17 @@ FILL_WORDS = ["a", "I", "of", "the", "data", "model", "x,", "(see", "docs)", "e.
               "https://example.com/a/b", "dataset_name", "it's", "\"hi\"", "UPPER", "non-negative", "e-mail", "a-", "-b-"]
 
 
-SAFE_FILL_WORDS = [x for x in FILL_WORDS if x not in ("well-known", "pre-trained", "a--b", "non-negative", "e-mail", "--",
-                                                       "1e-07", "a-", "-b-", "x-", "3-4", "https://example.com/a/b")]
-
-
 def gen_fill(rng):
-    """text for textwrap.fill itself: words of assorted shapes, blanks of assorted kinds, every width.
-    70% inside the fragment of Fill.v (no tab, no breakable hyphen, width >= longest word), 30% anywhere"""
-    safe = rng.random() < 0.7
+    """text for pure_utils.fill (= textwrap.fill with break_long_words=False, break_on_hyphens=False) itself:
+    words of assorted shapes (hyphenated, longer than the width), blanks of assorted kinds, every width;
+    a tab (the only thing Fill.v declines) in about 4% of the cases"""
+    tabs = rng.random() < 0.04
     n = rng.randint(0, 14)
     parts = []
     for i in range(n):
-        parts.append(rng.choice(SAFE_FILL_WORDS if safe else FILL_WORDS) if rng.random() < 0.7 else G.word(rng))
+        parts.append(rng.choice(FILL_WORDS) if rng.random() < 0.7 else G.word(rng))
         r = rng.random()
-        blanks = ["  ", "\n", "\n    ", "   ", " \n", "\n\n"] + ([] if safe else ["\t"])
+        blanks = ["  ", "\n", "\n    ", "   ", " \n", "\n\n", " " * rng.randint(4, 30)] + (["\t"] if tabs else [])
         parts.append(" " if r < 0.75 else rng.choice(blanks))
     s = "".join(parts)
     r = rng.random()
@@ -287,9 +287,9 @@ def gen_fill(rng):
     elif r < 0.5:
         s = s.rstrip()
     w = rng.choice([1, 2, 3, 5, 8, 10, 12, 15, 20, 25, 30, 40, 60, 79, 80, 100, 120]) if rng.random() < 0.8 else rng.randint(1, 130)
-    if safe:
-        w = max([w] + [len(x) for x in s.split()] + [len(x) for x in __import__("re").findall(r"[ \n]+", s)])
-    tags = ["fill-width:%s" % ("<10" if w < 10 else "<40" if w < 40 else ">=40"), "fill:" + ("fragment" if safe else "any")]
+    longest = max([len(x) for x in s.split()] + [0])
+    tags = ["fill-width:%s" % ("<10" if w < 10 else "<40" if w < 40 else ">=40"),
+            "fill:" + ("overflowing-word" if longest > w else "words-fit")]
     return {"fam": NAME, "fn": "fill_at", "width": None, "tags": tags, "args": {"s": s, "w": w}}
 
 
